@@ -463,6 +463,68 @@ def _memo_classes(ctx):
                msg="%s lost __eq__/__hash__" % bc.qual)
 
 
+def check_class_exact_equality(ctx):
+    """The objects used inside cache keys (fields, axes, aggregators) compare equal only to objects of the SAME class: the folded
+    __eq__ of every registered class (own or inherited) returns a value that implies `self.__class__ == other.__class__`.  An
+    isinstance test against a shared base (Quantile(0.5) == Threshold(0.5)) hands one field the other's cached arrays."""
+    prog = ctx.prog
+    from .. import boolq
+    for modname, base in (("verif.field", "Field"), ("verif.axis", "Axis"), ("verif.aggregator", "Aggregator")):
+        mm = prog.module(modname)
+        for c in sorted(mm.classes.values(), key=lambda c_: c_.name):
+            if not prog.is_subclass(c, modname + "." + base):
+                continue
+            hit = prog.lookup_method(c, "__eq__")
+            if hit is None:
+                continue
+            owner, fdef = hit
+            ev = symeval.Evaluator(owner.module)
+            ev.merge_ifs = True
+            try:
+                outs = [o for o in ev.run(fdef) if o.kind == "return"]
+            except (symeval.Undecided, AnalysisError, RecursionError):
+                ctx.undecided_item("C18.3", c.qual, "__eq__ is outside the analysable fragment")
+                continue
+            ok = bool(outs)
+            why = ""
+            for o in outs:
+                v = o.value
+                if not isinstance(v, Rat):
+                    ok = False
+                    why = "returns a non-scalar value"
+                    continue
+                full = boolq.conj(list(o.conds) + [(v, True)])
+                cls_atoms = []
+                for a in v.atoms(deep=True):
+                    if a.func in ("cmp_eq", "cmp_ne") and "__class__" in a.key and "$self" in a.key and "$other" in a.key:
+                        cls_atoms.append(a)
+                    elif a.func in ("cmp_eq", "cmp_ne", "is", "isnot") and "call:type($self)" in a.key and "call:type($other)" in a.key:
+                        cls_atoms.append(a)
+                for c_, _pol in o.conds:
+                    if isinstance(c_, Rat):
+                        for a in c_.atoms(deep=True):
+                            if a.func in ("cmp_eq", "cmp_ne") and "__class__" in a.key and "$self" in a.key and "$other" in a.key:
+                                cls_atoms.append(a)
+                if not cls_atoms:
+                    cv = v.const_value()
+                    if cv == 0:
+                        continue          # this exit never says "equal"
+                    ok = False
+                    why = "no comparison of self.__class__ with other.__class__"
+                    continue
+                same = boolq.disj([boolq.prop(Rat.of_atom(form.atom("cmp_eq", a.args))) for a in cls_atoms])
+                try:
+                    if not boolq.implies(full, same):
+                        ok = False
+                        why = "can return True for objects of different classes"
+                except boolq.TooBig:
+                    ctx.undecided_item("C18.3", c.qual, "__eq__ condition too large")
+            ctx.ob("C18.3", c.qual, ok, "%s.__eq__ (from %s) is true only for objects of the same class" % (c.name, owner.name), loc=prog.loc(owner.module, fdef),
+                   msg="%s.__eq__ (defined in %s) %s: instances of different %s classes compare equal and are handed each other's entries of the "
+                       "score caches (results then depend on which was requested first)" % (c.name, owner.name, why, base.lower()),
+                   nontrivial=(owner is c))
+
+
 def check_other_memos(ctx):
     """Every dictionary attribute of Data that is filled outside __init__ is a memo: its key must be built from the parameter values
     themselves (no hash()/id()/str() digest, whose collisions silently merge different requests) and contain every parameter the
@@ -551,6 +613,7 @@ def run(ctx):
     check_callers(ctx)
     check_memo_key(ctx)
     check_other_memos(ctx)
+    check_class_exact_equality(ctx)
     check_determinism(ctx)
     check_ownership(ctx)
     # controls of the alias domain
